@@ -130,3 +130,12 @@ def c_dev6(run):
 
 
 CHECKS['DEV6'] = c_dev6
+
+
+def c_dev7(run):
+    from .rules import r7_binary
+    r7_binary.run_r7(run)
+    run.explanation = 'dev R7'
+
+
+CHECKS['DEV7'] = c_dev7
